@@ -67,6 +67,18 @@ pub fn replay_case<H: HB>(c: &Case) -> Result<(), String> {
             return crate::post::from_iter_differential::<H>(c.double, &c.universe, seq, true).map(|_| ()).map_err(|e| e.1);
         }
     }
+    if c.probe.as_deref() == Some("big-equality") {
+        if let Root::FromVec(pairs) = &c.root {
+            return if c.double {
+                crate::props::big_equality::<DPQ<StdRandom>, DPQ<StdRandom>, DPQ<FnvBuild>>(pairs, |a, b| a == b, |a, b| a == b, |a, b| b == a)
+            } else {
+                crate::props::big_equality::<PQ<StdRandom>, PQ<StdRandom>, PQ<FnvBuild>>(pairs, |a, b| a == b, |a, b| a == b, |a, b| b == a)
+            };
+        }
+    }
+    if c.probe.as_deref() == Some("alloc-failure-grid") {
+        return crate::props::replay_alloc_failure(c.double);
+    }
     if c.probe.as_deref() == Some("capacity-grid") {
         let last = c.last.clone().ok_or("capacity-grid case without an operation")?;
         return if c.double { crate::props::replay_capacity_case::<DPQ<H>>(&c.ops, &last) } else { crate::props::replay_capacity_case::<PQ<H>>(&c.ops, &last) };
